@@ -43,9 +43,8 @@ LEVEL_TEXT = ("screen_refines is proved for EVERY history of create/write/overwr
 LEVEL_NOTE = ("Trusted: Lean kernel + propext/Quot.sound/Classical.choice; the hand-written section and terminal models "
               "(sampled by the correspondence, not verified against the source); the Python emulator; xterm/VT100 "
               "deferred-wrap semantics; ONLCR on the tty. Scope: tab-free, tag-free lines; indentation (inherited by a "
-              "section at creation, changed later) through the layer Model/SectionIndent.lean, whose screen theorem "
-              "excludes empty lines written at a positive indentation (recorded as blanks, printed empty: the screen is "
-              "then compared blank-insensitively by the oracle only); the sections "
+              "section at creation, changed later) through the layer Model/SectionIndent.lean (screen_refines_indented, no "
+              "further hypothesis); the sections "
               "fit on the visible screen (CUU stops at the top row), nothing else writes to the stream in between.")
 LEAN_MODULES = ["Clikit.Props.C15"]
 # sections with indentation (Model/SectionIndent.lean): indent_simulates reduces every indented history to the base
@@ -59,7 +58,7 @@ REQUIRED_THEOREMS = ["Clikit.Props.C15.screen_refines", "Clikit.Props.C15.screen
                      "Clikit.Props.C15.stream_refines_dec", "Clikit.Props.C15.plain_no_esc_dec",
                      "Clikit.Props.C15.clearN_beyond_reachable", "Clikit.Props.C15.indent_simulates",
                      "Clikit.Props.C15.screen_refines_indented", "Clikit.Props.C15.contents_spec_indented",
-                     "Clikit.Props.C15.indent_free_is_base", "Clikit.Props.C15.blankSafe_decides"]
+                     "Clikit.Props.C15.indent_free_is_base"]
 RULE = ("sec cases: (a) EVERY operation sequence of exactly depth 4 (quick) / 6 (thorough; every shorter sequence is "
         "a prefix and is checked too, because all checks run after every operation) over up to 3 sections with "
         "create, write_line (1-2 lines), overwrite, clear(), clear(n) and line lengths 0 / below / at / above / twice the "
@@ -69,7 +68,8 @@ RULE = ("sec cases: (a) EVERY operation sequence of exactly depth 4 (quick) / 6 
         "(c) SECTIONS WITH INDENTATION: every sequence again on sections created inside indentation scopes of the output "
         "(profiles (2,0,3), (0,3,2), (3,2,0) for the 1st/2nd/3rd section; pools 'ind' / 'ind_s' with lengths that reach the "
         "width only together with the indentation: quick depth 4 'ind' and depth 5 'ind_s' at width 10, plain depth 3; "
-        "thorough depth 5 'ind' twice, depth 6 'ind_s', depth 4 at width 7, plain depth 4), and every third random history "
+        "thorough depth 5 'ind' twice, depth 6 'ind_s', depth 4 at width 7, plain depth 4; indentation BEYOND the width "
+        "with empty lines: pool 'ind_e' at width 3 on profiles (0,4,5) / (4,0,7), quick depth 4, thorough depth 5), and every third random history "
         "creates its sections at indentation 0-4 and changes a section's indentation in the middle "
         "(section.indent(n) / section.increment_indent(n)); "
         "term cases: random print/up/erase streams replayed on the Lean terminal and on the emulator. "
@@ -87,10 +87,8 @@ TRUSTED_BASE = [
 ASSUMPTIONS = [
     "content is tab-free and free of style tags (scope of the model types, not a theorem hypothesis; a "
     "generated line outside it would show as a byte disagreement). Indentation: a section shows every line behind the "
-    "indentation it had when the line was written; an empty line may be recorded empty or as the blanks; "
-    "screen_refines_indented assumes no empty line is written at a positive indentation (blankSafe, decided by the model "
-    "on every case and compared with the harness' own decision); PENDING FINDING: an empty line on a section indented "
-    "beyond the terminal width (row counter off) is excluded from the oracle. Free of ESC and of newlines inside a line: no longer "
+    "indentation it had when the line was written, an empty line empty (D38 repaired: the recorded content is "
+    "indented exactly like the written text). Free of ESC and of newlines inside a line: no longer "
     "assumed - decided by the model on every case (wfB, compared with true)",
     "the rows of all sections fit on the visible screen (cursor-up is clamped at the top row of a real terminal)",
     "nothing else writes to the stream between section operations; the terminal has auto-wrap with deferred wrap",
@@ -239,10 +237,14 @@ POOLS = {
             "O": lambda w: [[3], [w - 2]], "N": [1]},
     "ind_s": {"W": lambda w: [[3], [w - 3], [w - 2], [w - 3, 0]],
               "O": lambda w: [[w - 2]], "N": [1]},
+    # for an indentation BEYOND the width (D38): empty lines, alone and next to text
+    "ind_e": {"W": lambda w: [[0], [1], [w], [0, 2], [0, 0]],
+              "O": lambda w: [[0], [2]], "N": [1]},
 }
 
 # indentation of the 1st, 2nd, 3rd section created (inherited from the output: `with output.indent(n): output.section()`)
 PROFILES = [(2, 0, 3), (0, 3, 2), (3, 2, 0)]
+WIDE_PROFILES = [(0, 4, 5), (4, 0, 7)]       # at width 3: indentation beyond the width
 
 
 def _enumerate(depth, pool, w, ansi, max_sections=3, profile=None):
@@ -339,13 +341,14 @@ def generate(tier, rng):
     if tier == "quick":
         plan = [(4, "big", 10, True), (4, "big", 20, True), (5, "d6", 10, True), (3, "big", 10, False)]
         iplan = [(4, "ind", 10, True, PROFILES[0]), (5, "ind_s", 10, True, PROFILES[1]),
-                 (3, "ind", 10, False, PROFILES[0])]
+                 (3, "ind", 10, False, PROFILES[0]), (4, "ind_e", 3, True, WIDE_PROFILES[0])]
         n_rand, n_plain, n_term = 4000, 600, 1500
     else:
         plan = [(6, "d6", 10, True), (5, "mid", 20, True), (4, "big", 7, True), (6, "small", 20, True),
                 (4, "big", 10, False)]
         iplan = [(5, "ind", 10, True, PROFILES[0]), (5, "ind", 10, True, PROFILES[1]), (6, "ind_s", 10, True, PROFILES[2]),
-                 (4, "ind", 7, True, PROFILES[1]), (4, "ind", 10, False, PROFILES[0])]
+                 (4, "ind", 7, True, PROFILES[1]), (4, "ind", 10, False, PROFILES[0]),
+                 (5, "ind_e", 3, True, WIDE_PROFILES[0]), (5, "ind_e", 3, True, WIDE_PROFILES[1])]
         n_rand, n_plain, n_term = 40000, 6000, 15000
     # sections with indentation (inherited from the output at creation): every sequence again, on an indentation profile
     for depth, pool, w, ansi, profile in iplan:
@@ -514,10 +517,9 @@ def model_obs(case, answers):
     return {"steps": steps, "screen": _norm_screen(a["screen"]["rows"], a["screen"]["cur"]),
             "lex": a["lex"], "run_agrees": a["run_agrees"], "width_seen": case["width"],
             "wf": {"wf": a["wf"], "anchored": a["anchored"]},
-            # the indentation layer: the base model on the padded history gives the same sections (always) and the
-            # same stream (when no empty line is written at a positive indentation: blank_safe)
-            "sim": {"state": a["sim_state"], "stream": a["sim_stream"] or not a["blank_safe"],
-                    "blank_safe": a["blank_safe"]}}
+            # the indentation layer: the base model on the indented history gives the same sections and the same
+            # stream (Props.C15.indent_simulates)
+            "sim": {"state": a["sim_state"], "stream": a["sim_stream"]}}
 
 
 def impl_view(case, obs):
@@ -527,41 +529,15 @@ def impl_view(case, obs):
     # decided by the model on this very case (Props.C15.wf_decides), must hold on every generated case
     return {"steps": obs["steps"], "screen": obs["screen"], "lex": True, "run_agrees": True,
             "width_seen": obs["width_seen"], "wf": {"wf": True, "anchored": True},
-            "sim": {"state": True, "stream": True, "blank_safe": _blank_safe(case["ops"])}}
-
-
-def _blank_safe(ops):
-    """the hypothesis of screen_refines_indented, decided by the harness itself: no empty line is written to a
-    section while it has a positive indentation"""
-    ind = []
-    for op in ops:
-        if op[0] == "create":
-            ind.append(op[1] if len(op) > 1 else 0)
-        elif op[0] == "indent":
-            ind[op[1]] = op[2]
-        elif op[0] in ("write", "overwrite") and ind[op[1]] > 0 and "" in op[2]:
-            return False
-    return True
+            "sim": {"state": True, "stream": True}}
 
 
 # ------------------------------------------------------------------ oracle
 
-def _indented(n, lines, have):
-    """the lines as a section of indentation `n` shows them: every line behind `n` blanks; an EMPTY line may be
-    recorded as empty or as the `n` blanks (it looks the same): taken as the section reports it (`have`)"""
-    out = []
-    for k, l in enumerate(lines):
-        if l == "" and n:
-            h = have[k] if k < len(have) else None
-            out.append(h if h in ("", " " * n) else " " * n)
-        else:
-            out.append(" " * n + l)
-    return out
-
-
-def _reported_lines(reported, i):
-    txt = reported[i][0] if i < len(reported) else ""
-    return txt.split("\n")[:-1] if txt else []
+def _indented(n, lines):
+    """the lines as a section of indentation `n` shows them: every non-empty line behind `n` blanks, an empty line
+    empty (the rule of Output.write; C11)"""
+    return [(" " * n + l) if l else l for l in lines]
 
 
 def _spec_apply(contents, op, reported, indents=None):
@@ -574,11 +550,10 @@ def _spec_apply(contents, op, reported, indents=None):
         indents[op[1]] = op[2]
     elif op[0] == "write":
         n = indents[op[1]] if indents else 0
-        have = _reported_lines(reported, op[1])[len(contents[op[1]]):]
-        contents[op[1]] = contents[op[1]] + _indented(n, op[2], have)
+        contents[op[1]] = contents[op[1]] + _indented(n, op[2])
     elif op[0] == "overwrite":
         n = indents[op[1]] if indents else 0
-        contents[op[1]] = _indented(n, op[2], _reported_lines(reported, op[1]))
+        contents[op[1]] = _indented(n, op[2])
     elif op[0] == "clear":
         contents[op[1]] = []
     elif op[0] == "clearN":
@@ -629,10 +604,6 @@ def oracle(case, obs):
         if "error" in st:
             return "%s raised %s" % (_short(op), st["error"])
         reported = st["secs"]
-        if op[0] in ("write", "overwrite") and indents[op[1]] > w and "" in op[2]:
-            # pending finding, see report: an EMPTY line written to a section whose indentation exceeds the terminal
-            # width is recorded as `indent` blanks (counted as several rows) but shown as one empty row
-            return None
         _spec_apply(contents, op, reported, indents)
         if len(reported) != len(contents):
             return "%s: %d sections, %d were created" % (where, len(reported), len(contents))
